@@ -22,7 +22,7 @@ def rand_arr(rng, dts):
     for s in shape:
         n *= s
     dt = rng.choice(dts)
-    data = [rng.randrange(0, 2) if dt == 0 else rng.randrange(0, 6) for _ in range(n)]
+    data = [rng.randrange(0, 2) if dt == 0 else rng.randrange(0, 48) if dt >= 7 else rng.randrange(0, 6) for _ in range(n)]
     return [A('arr'), shape, dt, data]
 
 
